@@ -32,7 +32,7 @@ type MThread struct {
 
 type MCase struct {
 	StartN      int       `json:"start_n"`
-	StartReason int       `json:"start_reason"` // 3 normal (nil), 4 shutdown, >= 5 custom
+	StartReason int       `json:"start_reason"` // 2 Start panics, 3 normal (nil), 4 shutdown, >= 5 custom
 	Threads     []MThread `json:"threads"`
 	Sched       []int     `json:"sched"`
 	Policy      string    `json:"policy"`
@@ -107,6 +107,10 @@ func (b *metaB) Start() error {
 	}
 	if b.pr.startR == 3 {
 		return nil
+	}
+	if b.pr.startR == 2 {
+		// Start() panics: the recover branch of meta.start takes the same decisions with reason panic
+		panic("meta Start panics (harness)")
 	}
 	return reasonErr(b.pr.startR)
 }
@@ -340,7 +344,7 @@ func coqMetaCase(c MCase, r MResult) string {
 }
 
 func genMetaCase(r *rand.Rand) MCase {
-	c := MCase{StartN: r.Intn(4), StartReason: []int{3, 3, 4, 5}[r.Intn(4)]}
+	c := MCase{StartN: r.Intn(4), StartReason: []int{3, 3, 4, 5, 2}[r.Intn(5)]}
 	id := 1
 	for i := r.Intn(4); i > 0; i-- {
 		m := MMsg{ID: id, Beh: "ok", N: r.Intn(3)}
@@ -370,6 +374,10 @@ func metaCorpus() []MCase {
 		{StartN: 0, StartReason: 3, Threads: []MThread{{Kind: "S", Msg: MMsg{ID: 1, Beh: "ok", N: 2}}},
 			Sched:  []int{0, 0, 0, 1, 1, 1, 3, 3, 3, 3, 0, 0, 0, 0},
 			Policy: "lowest", Tags: []string{"corpus", "meta-start-returns-while-handler-runs"}},
+		// Start() PANICS while the handler goroutine is inside HandleMessage: the handler terminates the meta process, once
+		{StartN: 0, StartReason: 2, Threads: []MThread{{Kind: "S", Msg: MMsg{ID: 1, Beh: "ok", N: 2}}},
+			Sched:  []int{0, 0, 0, 1, 1, 1, 3, 3, 3, 3, 0, 0, 0, 0},
+			Policy: "lowest", Tags: []string{"corpus", "meta-start-panics-while-handler-runs"}},
 		// the handler terminates by an error while Start() is still running
 		{StartN: 3, StartReason: 3, Threads: []MThread{{Kind: "S", Msg: MMsg{ID: 1, Beh: "err", Reason: 6}}},
 			Sched: []int{0, 0, 0, 2, 1, 1, 1, 3, 3, 3, 3, 3, 3, 3, 3}, Policy: "lowest", Tags: []string{"corpus"}},
